@@ -2229,3 +2229,95 @@ Proof.
   rewrite dict_of_items by (rewrite map_map; cbn [fst]; exact Hnd). cbn [bind].
   rewrite dict_update_skeys. cbn [bind]. apply IH. exact Ht.
 Qed.
+
+(* ================================================================== StructMeta.__new__, statement by statement *)
+
+(* The generator emits StructMeta.__new__ as the composition of one definition per top-level statement
+   (StructMeta_new__<label>).  The statements that resolve the field names, _required and _optional are tied to
+   the corresponding steps of [define] here; the composition itself is the generated [StructMeta_new]. *)
+
+(* for field_name in fields: names starting with "_" and the name "kwargs" are refused -- [bad_field_name] *)
+Lemma startswith_underscore n :
+  dv_startswith (PStr n) (PStr (s2p "_")) = Ok (match n with a :: _ => N.eqb a us | [] => false end).
+Proof.
+  cbn [dv_startswith]. f_equal. destruct n as [|a t]; [reflexivity|].
+  change (s2p "_") with [us]. cbn [PyOpsFields.str_prefix]. rewrite N.eqb_sym. apply andb_true_r.
+Qed.
+
+Theorem new_field_names_src so X ents names h :
+  (forall n, In n names -> exists o, alist_get ents n = Some (ref o)) ->
+  match StructMeta_new__for_field_name so X h (PDict (skeys ents)) (v_names names) with
+  | Ok h' => existsb bad_field_name names = false /\ (forall o a, a <> s2p "_name" -> h' o a = h o a)
+  | Raise x => x = ValueError /\ existsb bad_field_name names = true
+  end.
+Proof.
+  unfold StructMeta_new__for_field_name, v_names. cbn [dv_iter bind]. fold (v_strs names).
+  match goal with |- context [@dv_foldM ?S ?F] => set (BODY := F) end.
+  assert (Hgen : forall ns h0, (forall n, In n ns -> exists o, alist_get ents n = Some (ref o)) ->
+            match py_foldM BODY (v_strs ns) h0 with
+            | Ok h' => existsb bad_field_name ns = false /\ (forall o a, a <> s2p "_name" -> h' o a = h0 o a)
+            | Raise x => x = ValueError /\ existsb bad_field_name ns = true
+            end).
+  { induction ns as [|n t IH]; intros h0 Hent.
+    - cbn [v_strs map py_foldM existsb]. split; [reflexivity|]. intros; reflexivity.
+    - cbn [v_strs map]. fold (v_strs t). cbn [py_foldM].
+      unfold BODY at 1. cbn [bind].
+      rewrite startswith_underscore. cbn [py_or bind]. unfold py_eqv. rewrite py_eq_str. cbn [existsb].
+      unfold bad_field_name at 1 3. change (s2p "kwargs") with n_kwargs.
+      destruct (match n with a :: _ => N.eqb a us | [] => false end); cbn [orb bind]; [split; reflexivity|].
+      destruct (pystr_eqb n n_kwargs); cbn [orb bind]; [split; reflexivity|].
+      destruct (Hent n (or_introl eq_refl)) as [o Ho]. rewrite !subscript_skeys, Ho. cbn [bind].
+      assert (Ht : forall k, In k t -> exists o0, alist_get ents k = Some (ref o0)) by (intros k Hk; apply Hent; right; exact Hk).
+      unfold obj_isinstance, ref. rewrite pystr_eqb_refl. cbn [bind].
+      destruct (match h0 o (isinstance_attr (s2p "Field")) with Some b => py_truthy b | None => false end); cbn [bind].
+      + cbn [dv_setattr]. rewrite pystr_eqb_refl. cbn [bind].
+        specialize (IH (heap_set h0 o (s2p "_name") (PStr n)) Ht).
+        destruct (py_foldM BODY (v_strs t) (heap_set h0 o (s2p "_name") (PStr n))) as [h'|x]; [|exact IH].
+        destruct IH as [Hb Hh]. split; [exact Hb|]. intros o' a Ha. rewrite (Hh o' a Ha). unfold heap_set.
+        destruct (pystr_eqb a (s2p "_name")) eqn:E; [apply pystr_eqb_spec in E; contradiction|]. rewrite andb_false_r. reflexivity.
+      + apply (IH h0 Ht). }
+  intro Hent. specialize (Hgen names h Hent). unfold dv_foldM.
+  destruct (py_foldM BODY (v_strs names) h) as [h'|x]; cbn [bind]; exact Hgen.
+Qed.
+
+(* for f in optional_fields: `_optional` may not name a field that the class body or a base requires *)
+Lemma foldM_check_strs (f : unit -> pyval -> res unit) (bad : pystr -> bool) x l :
+  (forall n, f tt (PStr n) = if bad n then Raise x else Ok tt) ->
+  dv_foldM f (v_strs l) tt = if existsb bad l then Raise x else Ok tt.
+Proof.
+  intro H. unfold dv_foldM, v_strs. induction l as [|c t IH]; [reflexivity|].
+  cbn [map py_foldM existsb]. rewrite H. destruct (bad c); cbn [bind orb]; [reflexivity|exact IH].
+Qed.
+
+Theorem new_optional_check_src so X h breq required optional :
+  StructMeta_new__for_f so X h (v_names breq) (v_names required) (v_names optional) =
+  if existsb (fun f => str_in f required || str_in f breq) optional then Raise ValueError else Ok tt.
+Proof.
+  unfold StructMeta_new__for_f, v_names. rewrite !deref_list. cbn [dv_iter bind]. fold (v_strs optional).
+  rewrite (foldM_check_strs _ (fun f => str_in f required || str_in f breq) ValueError).
+  - destruct (existsb _ optional); reflexivity.
+  - intro f. cbn [bind]. fold (v_strs required). fold (v_strs breq). rewrite !in_list. cbn [py_or bind].
+    destruct (str_in f required); cbn [orb bind]; [reflexivity|]. destruct (str_in f breq); reflexivity.
+Qed.
+
+(* setattr(clsobj, "_required", list(set(bases_required + required))): the model's dedup_str (breq ++ required),
+   in the order the set iterates *)
+Theorem new_required_attr_src so X h c breq required :
+  so_ok so ->
+  exists req, Permutation req (dedup_str (breq ++ required)) /\
+    StructMeta_new__call_setattr_REQUIRED_FIELDS so X h (v_names breq) (ref c) (v_names required) =
+    Ok (heap_set h c (s2p "_required") (v_names req)).
+Proof.
+  intro Hso. unfold StructMeta_new__call_setattr_REQUIRED_FIELDS, v_names. rewrite !deref_list. rewrite add_lists. cbn [bind].
+  rewrite deref_list, <- map_app. fold (v_strs (breq ++ required)). rewrite set_of_list. cbn [bind].
+  rewrite deref_set. cbn [dv_list_of dv_iter bind].
+  destruct (so_strs so (dedup_str (breq ++ required)) Hso) as [req [Eso Hperm]]. rewrite Eso. cbn [bind].
+  exists req. split; [exact Hperm|]. unfold ref. cbn [dv_setattr]. rewrite pystr_eqb_refl. reflexivity.
+Qed.
+
+(* required = cls_dict.get("_required", default_required): always the entry that
+   _apply_default_and_update_required_... stored *)
+Theorem new_required_src so X h ents d v :
+  alist_get ents (s2p "_required") = Some v ->
+  StructMeta_new__set_required so X h (PDict (skeys ents)) d = Ok v.
+Proof. intro H. unfold StructMeta_new__set_required. rewrite dict_get_skeys_def, H. reflexivity. Qed.
